@@ -186,6 +186,13 @@ def r1(ctx):
         log = {"asked": [], "table": None, "bounds": None}
 
         def oracle(kind, name, payload, site, verdicts=verdicts):
+            if kind in ("eq", "cmp"):
+                a_, b_ = str(name), str(payload)
+                # whose row is it: the rows k<i> are the inserting author's, `other-author` is not
+                if ("author" in a_ and "author" in b_) and (a_.startswith("k") or b_.startswith("k") or "other-author" in a_ + b_) and not (a_.startswith("k") and b_.startswith("k")):
+                    same = "other-author" not in a_ + b_
+                    return same if kind == "eq" else (0 if same else 1)
+                return None
             if kind != "call":
                 return None
             t, args, it = payload
@@ -200,6 +207,25 @@ def r1(ctx):
             if name == "as_ref" and names and names[0].startswith("author_prefix("):
                 return args[0]
             ct = T.call_table(t, types)
+            if ct and ct[0] == "records_by_key" and ct[1] in ("extract_from_if", "extract_if", "retain_in", "retain", "remove"):
+                # a clean-up of the key-ordered index at prune time: the index holds one id (namespace, key, author) per record of
+                # this author under the prefix (rows 0..n-1, as in the records table) and one id of another author
+                gone = []
+                if ct[1] == "remove":
+                    gone.append(names[1])
+                else:
+                    rows = [(i, "k%d.author" % i) for i in range(len(verdicts))] + [(9, "other-author")]
+                    for i, au in rows:
+                        row_k = ("tuple", [E.Tok("k%d.ns" % i), E.Tok("k%d.key" % i), E.Tok(au)])
+                        r = it.deref_val(it.apply(args[-1], [row_k, E.UNIT]))
+                        if not E.is_int(r):
+                            raise E.Unsupported("index row callback verdict undetermined")
+                        if bool(r[1]) != ct[1].startswith("retain"):
+                            gone.append(i)
+                log.setdefault("index_removed", []).extend(gone)
+                if ct[1].startswith("retain") or ct[1] == "remove":
+                    return E.Ok(E.UNIT) if ct[1] != "remove" else E.Ok(E.NONE)
+                return E.Ok(coll.seq("iter", [E.Tok("irow%s" % g) for g in gone]))
             if ct and ct[1] in ("extract_from_if", "extract_if", "retain_in", "retain"):
                 log["table"], log["bounds"] = ct[0], names[1] if len(names) > 2 else None
                 removed = []
@@ -233,6 +259,13 @@ def r1(ctx):
             got = "UNSUPPORTED-FORM: %s" % ex
         want_asked = ["Record(hash=v%d.hash,len=v%d.len,timestamp=v%d.timestamp)" % (i, i, i) for i in range(len(verdicts))]
         ok = got == "Ok(%d)" % sum(verdicts) and log["asked"] == want_asked and log["table"] == "records" and (log["bounds"] or "").startswith("author_prefix(namespace(id),author(id),key")
+        # whatever the prune does to the key-ordered index, it may only drop the ids of records it removed: the id of a record
+        # that survives (it is newer than the entry being inserted) or of another author must stay, or that record is no longer
+        # found by key-ordered and latest-per-key queries while lookups and author-ordered queries still return it
+        ir = log.get("index_removed", [])
+        bad_ir = [g for g in ir if g == 9 or (isinstance(g, int) and g < len(verdicts) and not verdicts[g]) or not isinstance(g, int)]
+        ctx.check(not got.startswith("UNSUPPORTED") and not bad_ir, "C02.R1", rpf.path, "index-ids-of-surviving-records-kept[%s]" % ("".join(str(v) for v in verdicts) or "no-rows"),
+                  "returns %s; index ids dropped by the prune: rows %s of verdicts %s (row 9 = another author's); spec: only ids of removed records" % (got, ir, list(verdicts)), rpf.sp)
         ctx.check(ok, "C02.R1", rpf.path, "predicate-decides[%s]" % ("".join(str(v) for v in verdicts) or "no-rows"),
                   "returns %s; the predicate was asked about %s on table %s within %s; spec: each row's own (hash, len, timestamp), the verdict decides, the count of removed rows is returned: Ok(%d)" % (got, log["asked"], log["table"], log["bounds"], sum(verdicts)), rpf.sp)
 
